@@ -115,7 +115,9 @@ fn step_contract(ev_kind: usize) {
     let mut radio = MockRadio { pkt: tape::arr(), offset: tape::i8() as i32 * 4, duration: tape::u16() as u32, sending: false };
     let mut rng = TapeRng { draws: 0, free: 0, accept: 0 };
     let mut buf: RadioBuffer<64> = RadioBuffer::new();
+    // the application need not have taken an earlier downlink: the queue may be empty or full
     let mut dl: Vec<Downlink, 1> = Vec::new();
+    if tape::boolean() { let _ = dl.push(Downlink { data: Vec::new(), fport: tape::u8() }); }
     let s0 = any_state();
     // A-radio: in SendingData the radio answers a PHY event with TxDone or an error (the code documents a panic otherwise);
     // A-board: timestamps stay below 2^31 so that the i32 arithmetic of the window computation does not wrap
